@@ -84,9 +84,16 @@ class Script:
             self.post = []
 
     def mark(self, inst: int, k: int, getters: list[str]) -> None:
+        """Serial marker after call k of instance inst, followed by the state queries.  In the run-time rendering the
+        queries are first stored in variables (a state query keeps its value - and its type - when it is assigned)."""
         self.lines.append(f'mon.write("#{inst}.{k}")')
-        for g in getters:
-            self.lines.append(f"mon.write({g})")
+        for j, g in enumerate(getters):
+            if self.routing == "rt":
+                self.ngv = getattr(self, "ngv", 0) + 1
+                self.lines.append(f"gq{self.ngv} = {g}")
+                self.lines.append(f"mon.write(gq{self.ngv})")
+            else:
+                self.lines.append(f"mon.write({g})")
 
     def source(self) -> str:
         return "\n".join(self.lines) + "\n"
